@@ -1255,6 +1255,46 @@ func (k *c19) aliasingCopy(f *ssa.Function, cl *ssa.Call) {
 		cs := c.stringConstsDeep(g, 3)
 		return cs["copy"] && cs["from"] && cs["path"]
 	}}
+	// "the same element" must mean what it means to the library: its array containers turn a reference token into an
+	// index with the strconv function(s) below; the module's check has to read numeric tokens with the same function,
+	// or two spellings the library treats as one element ("+0", "-0", "00") slip through
+	libParse := map[string]bool{}
+	if sp := c.SPkg[jsonPatchPkg]; sp != nil {
+		for _, lf := range allFuncs(sp) {
+			if lf.Signature.Recv() == nil || !strings.Contains(lf.Signature.Recv().Type().String(), "partialArray") {
+				continue
+			}
+			forEachInstr(lf, func(in ssa.Instruction) {
+				if lc, isC := in.(*ssa.Call); isC && lc.Call.StaticCallee() != nil && lc.Call.StaticCallee().Pkg != nil && lc.Call.StaticCallee().Pkg.Pkg.Path() == "strconv" {
+					libParse[lc.Call.StaticCallee().String()] = true
+				}
+			})
+		}
+	}
+	modParse := map[string]bool{}
+	forEachInstr(f, func(in ssa.Instruction) {
+		call, isC := in.(*ssa.Call)
+		if !isC || !chk.MatchCall(c, call, nil) {
+			return
+		}
+		for _, g := range c.reachableModuleFuncs([]*ssa.Function{call.Call.StaticCallee()}) {
+			forEachInstr(g, func(i2 ssa.Instruction) {
+				if mc, isMC := i2.(*ssa.Call); isMC && mc.Call.StaticCallee() != nil && mc.Call.StaticCallee().Pkg != nil && mc.Call.StaticCallee().Pkg.Pkg.Path() == "strconv" {
+					n := mc.Call.StaticCallee().String()
+					if strings.HasPrefix(n, "strconv.Atoi") || strings.HasPrefix(n, "strconv.Parse") {
+						modParse[n] = true
+					}
+				}
+			})
+		}
+	})
+	same := len(libParse) > 0 && len(modParse) == len(libParse)
+	for n := range modParse {
+		if !libParse[n] {
+			same = false
+		}
+	}
+	k.obl("C19.G", short(f.String())+": copy check reads array indices like the library", same, cl.Pos(), fmt.Sprintf("the library's array containers parse index tokens with %v; the module's copy-into-itself check parses them with %v", keysOfBool(libParse), keysOfBool(modParse)))
 	ok, w, _ := c.Guard(f, nil, chk, func(i ssa.Instruction) bool { return i == ssa.Instruction(cl) })
 	k.obl("C19.G", short(f.String())+": json-patch copy into itself refused", ok, cl.Pos(), why+"; before Apply the operation must have passed a check (a module function returning an error that inspects \"op\" == \"copy\", \"from\" and \"path\" of this operation) refusing a copy whose from is a proper prefix of its path", w...)
 }
